@@ -15,9 +15,25 @@ NA = {
  "C17": "equivalence of two configurations over all requests - pure; its isolation clause is exercised by the C05/C06 workloads",
 }
 
-PENDING = ["C02", "C05", "C06", "C12", "C13", "C18", "C19", "C20"]
+PENDING = ["C06", "C13", "C18", "C19"]
 
 CHECKS = {
+ "C02": dict(cat="exploration", design="DESIGN.md §4 C02",
+   technique="deterministic simulation: unreliable connector (dropped / duplicated / reordered API calls) against a reference phase machine",
+   text="The connector is simulated as an unreliable caller: the canonical call list is delivered through a channel that drops, duplicates and reorders calls, bodies arrive in pieces, engine modes and ctl:ruleEngine switches are drawn. After every delivered call a reference phase machine written from the statement checks which rules may have fired, that no request/response phase ran twice or after an interruption, and that every call returns the first interruption (or none in DetectionOnly / Off). Histories are unbounded in shape, so seeded exploration with shrinking is the fitting level.",
+   note="trusted: the reference phase machine; rule-matching semantics only for single-token rules; zones the statement leaves open are listed as unchecked in the evidence"),
+ "C05": dict(cat="exploration", design="DESIGN.md §4 C05",
+   technique="deterministic simulation: transaction histories over a simulated pool (forced object reuse) and disk, differential against a fresh WAF",
+   text="Histories of 1-3 predecessor transactions (interrupted in any phase, spilling to the simulated disk, changing engine/limits/exclusions by ctl, leaving skip/skipAfter/allow pending, omitting ProcessLogging, closed twice, abandoned after any call, optionally hit by a disk fault) followed by a probe on the recycled object handed out by the simulated pool; the probe's full outcome incl. a dump of every readable variable must equal the same probe on a fresh WAF.",
+   note="trusted: the simulated pool policy (LIFO = always recycle), outcome normaliser; TIME*/DURATION/ENV/temp names excluded"),
+ "C12": dict(cat="exploration", design="DESIGN.md §4 C12",
+   technique="deterministic simulation of map order + colliding rule sequences; reference transformation model and identity-prefix differential",
+   text="Rule sequences built to collide in the per-phase transformation cache (shared prefixes, selectors and exclusions that shift positions, targets that change inside a phase) on requests with repeated names and values, under simulator-chosen map orders. Oracles: the registered transformation functions applied directly to the values the rule selects, and the same rules with a distinct identity transformation per rule (no cross-rule sharing possible).",
+   note="trusted: transformation functions (pure, C14), the twin-rule trick that reveals selected values"),
+ "C20": dict(cat="fault_enumeration", design="DESIGN.md §4 C20",
+   technique="deterministic simulation with systematic fault injection: every disk operation of a recorded run fails in turn, every early-termination point; random multi-fault runs in thorough",
+   text="For each generated transaction the disk operation log of a fault-free run is enumerated exhaustively: every operation fails with every applicable fault kind, and the transaction is abandoned after every API call. Oracle: no panic, the failure is visible (returned error, error variable, Close error or log entry), legal short reads change nothing, no temp file remains after Close, the recycled object behaves like a fresh one. Enumeration is exhaustive per scenario; scenarios are sampled.",
+   note="trusted: simos fault semantics; configuration-time operations are not fault points; warn-level log entries count as visible"),
  "C04": dict(cat="exploration", design="DESIGN.md §4 C04",
    technique="deterministic simulation: simulator-chosen map iteration order and pool reuse, differential against canonical-order reference",
    text="Seeded search over the two hidden schedulers that can make a transaction's outcome vary: every map iteration in coraza asks the simulator for an order (rotation / full shuffle) and the transaction pool is forced to recycle objects; each generated (configuration, request) is run N times and compared with the canonical-order run. Exploration is the right level: the space of orders is factorial and the defect class needs an unlucky order plus a rule shape that observes it.",
